@@ -9,6 +9,7 @@ import AikenVerif.Drivers.Prec
 import AikenVerif.Drivers.Text
 import AikenVerif.Drivers.Match
 import AikenVerif.Drivers.Iso
+import AikenVerif.Drivers.Mini
 /-!
 Native driver: line protocol.  Each request line is
   `<sub-command> <case-id> <fields…>`
@@ -40,6 +41,8 @@ def dispatch (st : DriverState) (sub : String) (args : List String) : DriverStat
   | "text-lex" => (st, Drivers.Text.handleLex args)
   | "match" => (st, Drivers.Match.handle args)
   | "iso" => (st, Drivers.Iso.handle args)
+  | "mini" => (st, Drivers.Mini.handle args)
+  | "errclass" => (st, Drivers.Mini.handleErrClass args)
   | _ => (st, "unknown-subcommand")
 
 partial def loop (h : IO.FS.Stream) (out : IO.FS.Stream) (st : DriverState) : IO Unit := do
